@@ -590,9 +590,11 @@ def run_obs_holders(ctx, only=None, generated=None):
         root_logger.setLevel(saved[1])
     if only is None:
         ctx.traces += n
-        ctx.note('observation holders: %d histories (%d short ones on one Optimizer: every pair of observations given with a use in between; %d random ones on two) '
+        how = 'give, use, give, use for every pair of observations given' if q else 'every history of 4 actions'
+        ctx.note('observation holders: %d histories (%d short ones on one Optimizer: %s; %d random ones on two) '
                  'of constructor / set_observed / chisq_trans / generate_solution over 3 observations (array, text, hdf5; 4, 4 and 3 bins); '
-                 'canary: %d histories on the harness\'s own unsound holders' % (n, sum(1 for w in walks if w['src'] == 'short'), sum(1 for w in walks if w['src'] == 'walk'), ncan))
+                 'canary: %d histories on the harness\'s own unsound holders'
+                 % (n, sum(1 for w in walks if w['src'] == 'short'), how, sum(1 for w in walks if w['src'] == 'walk'), ncan))
         ctx.add_sample(dict(holder_history=OH.trail(walks[-1]['acts']), exposes=walks[-1]['kills']))
 
 
